@@ -273,9 +273,85 @@ func c26body(c c26cfg) func(x *vsched.Exec) {
 	}
 }
 
+
+// c26backlog: a slow consumer. The callback of the first message blocks until the ender has cancelled the context;
+// meanwhile 19 more messages arrive: 16 fill the subscription's buffer and the connection's reader waits with the next
+// one. Receive must return the context error, the delivered messages must be an in-order prefix, and the connection
+// must keep serving regular commands afterwards.
+func c26backlog(resp2 bool) func(x *vsched.Exec) {
+	return func(x *vsched.Exec) {
+		e := vwNew(func(o *ClientOption, srv *simredis.Server, n *simnet.Net) {
+			if resp2 {
+				o.AlwaysRESP2 = true
+				o.DisableCache = true
+			}
+		})
+		if e.err != nil {
+			x.Fail("client setup failed", "%v", e.err)
+			return
+		}
+		ctx, cancel := context.WithCancel(context.Background())
+		var got []string
+		var recvErr error
+		released, recvDone, pubDone := false, false, false
+		const total = 20
+		vsched.GoNamed("recv", func() {
+			recvErr = e.client.Receive(ctx, e.client.B().Subscribe().Channel("ch1").Build(), func(m PubSubMessage) {
+				got = append(got, m.Message)
+				if len(got) == 1 {
+					vsched.Point("slow-consumer", func() bool { return released })
+				}
+			})
+			recvDone = true
+		})
+		vsched.GoNamed("publisher", func() {
+			vsched.Point("wait-confirm", func() bool {
+				for _, s := range e.srv.Sessions {
+					if len(s.Subs) > 0 {
+						return true
+					}
+				}
+				return false
+			})
+			for i := 1; i <= total; i++ {
+				e.srv.Publish("ch1", fmt.Sprintf("m%02d", i), false)
+			}
+			pubDone = true
+		})
+		vsched.GoNamed("ender", func() {
+			vsched.Point("wait-published", func() bool { return pubDone && len(got) > 0 })
+			vsched.Point("end", nil)
+			cancel()
+			released = true
+		})
+		var after string
+		var afterErr error
+		vsched.GoNamed("after", func() {
+			vsched.Point("wait-receive", func() bool { return recvDone })
+			after, afterErr = e.client.Do(context.Background(), e.client.B().Echo().Message("after").Build()).ToString()
+		})
+		if x.Run() != vsched.Quiescent {
+			return // a deadlock is reported by the explorer
+		}
+		if recvErr != context.Canceled {
+			x.Fail("Receive did not return the context error", "got %v after %d messages", recvErr, len(got))
+		}
+		for i, g := range got {
+			if g != fmt.Sprintf("m%02d", i+1) {
+				x.Fail("Receive delivered a message it was not owed, out of order or twice", "delivered %v", got)
+				break
+			}
+		}
+		if afterErr != nil || after != "after" {
+			x.Fail("regular command on the subscribed connection got a wrong reply", "ECHO after -> %q, %v", after, afterErr)
+		}
+		x.Outcome = fmt.Sprintf("delivered=%d err=%s", len(got), vwErrStr(recvErr))
+	}
+}
+
 func TestVerif_C26(t *testing.T) {
 	vrun.Main(t, "C26", func(r *vrun.Run) {
-		r.Rule = "1-2 Receive calls (channels, patterns, shard channels, overlapping) on a real client, an out-of-band publisher sending 3-4 messages on 2 channels once the subscriptions are confirmed, an ender (UNSUBSCRIBE through another call, server-initiated sunsubscribe, context cancel, Close, connection drop) and optionally a thread issuing tagged regular commands; RESP3 and RESP2; all schedules within the preemption/delay bound; oracle: callback log = server publish log filtered to the subscription up to its end, in order, no duplicates; return value per end kind"
+		r.Rule = "1-2 Receive calls (channels, patterns, shard channels, overlapping) on a real client, an out-of-band publisher sending 3-4 messages on 2 channels once the subscriptions are confirmed, an ender (UNSUBSCRIBE through another call, server-initiated sunsubscribe, context cancel, Close, connection drop) and optionally a thread issuing tagged regular commands; RESP3 and RESP2; plus a slow consumer (callback blocked while 20 messages arrive: the 16-slot buffer fills and the reader waits) whose context is then cancelled, followed by a regular command; all schedules within the preemption/delay bound; oracle: callback log = server publish log filtered to the subscription up to its end, in order, no duplicates; return value per end kind"
 		pubs := []string{"ch1:m1", "ch2:x1", "ch1:m2", "ch1:m3"}
 		cfgs := []c26cfg{
 			{name: "sub/unsub", subs: []string{"sub:ch1"}, pubs: pubs, end: "unsub"},
@@ -294,6 +370,13 @@ func TestVerif_C26(t *testing.T) {
 		}
 		for ci, c := range cfgs {
 			vexp.Run(r, vexp.Prog{Name: c.name, Delay: 1, Budget: vsched.Budget{MaxPreempt: vrun.Pick(r, 1, 2)}, Opts: vsched.Options{Horizon: 20000}, Body: c26body(c), Seconds: r.Remaining() / float64(len(cfgs)-ci)})
+		}
+		for _, resp2 := range []bool{false, true} {
+			name := "backlog/slow-consumer/cancel"
+			if resp2 {
+				name = "resp2/" + name
+			}
+			vexp.Run(r, vexp.Prog{Name: name, Delay: 1, Budget: vsched.Budget{MaxPreempt: 1}, Opts: vsched.Options{Horizon: 40000}, Body: c26backlog(resp2), Seconds: vrun.Pick(r, 10.0, 60.0)})
 		}
 		r.Assume("messages are owed from the moment the server has registered the subscription; fake server pushes message/pmessage/smessage frames in publish order")
 	})
